@@ -28,7 +28,7 @@ from typing import TYPE_CHECKING
 from igraph import Vertex
 
 from explorerscript.ssb_converting.decompiler.write_handlers.abstract import AbstractWriteHandler
-from explorerscript.ssb_converting.ssb_special_ops import SsbLabelJump
+from explorerscript.ssb_converting.ssb_special_ops import SsbLabelJump, SsbForeignLabel
 
 if TYPE_CHECKING:
     from explorerscript.ssb_converting.ssb_decompiler import ExplorerScriptSsbDecompiler
@@ -49,7 +49,15 @@ class CallWriteHandler(AbstractWriteHandler):
         op: SsbLabelJump = self.start_vertex["op"]
         self.decompiler.source_map_add_opcode(op.offset)
         assert op.label is not None
-        self.decompiler.write_stmnt(f"call @label_{op.label.id};")
         exits = self.start_vertex.out_edges()
         assert 3 > len(exits) > 0, f"A call must have exactly one or two points to jump to, has {len(exits)}."
+        self.decompiler.write_stmnt(f"call @label_{op.label.id};")
+        # One edge is the call itself (it leads to the label of this op), the other one continues after the call.
+        for e in exits:
+            target_op = e.target_vertex["op"]
+            is_call_target = target_op is op.label or (
+                isinstance(target_op, SsbForeignLabel) and target_op.label is op.label
+            )
+            if not is_call_target:
+                return e.target_vertex
         return exits[0].target_vertex
